@@ -11,7 +11,7 @@ ID = "C11"
 LEVEL = "exploration"
 PROBES = ("tests",)
 RULE = ("fault-free draw streams only (an adversarial draw is by construction not uniform). Cases: domain expressions of the C01 "
-        "generator (primitives, boundaries, Boolean combinations, transforms, dependent products) at ONE parameter row, law in "
+        "generator (primitives, boundaries, Boolean combinations, transforms, dependent products) judged at ONE parameter row -- alone, or (uniform law, n-mode, half of the parameter-dependent cases and a dedicated cell of unions whose mixture weight depends on the parameter) as one block of a call with 2-3 parameter rows --, law in "
         "{uniform (n- and density mode), Gaussian, LHS on boxes, grid}. uniform/Gaussian: M = 6e4 (quick) / 6e5 (thorough) library "
         "points against 10 M points of the independent reference sampler (rejection through the float64 margin; arclength-weighted "
         "leaf boundaries restricted by the margin for boundaries; truncated normal draws for Gaussian) on a G^d partition (G = 24/6/4 "
